@@ -414,6 +414,38 @@ def _field_writes(facts, adt_pat, name, crate=None, include_borrows=True):
     return res
 
 
+def borrow_stores(facts, w):
+    """stores made through a local `&mut` borrow of a field place (Write of kind 'mutborrow'): follows the
+    borrow's destination local through moves/reborrows inside the same body and returns Write('viaborrow')
+    for every statement assigning to `*alias` (or below)."""
+    b = w.body
+    if w.kind != 'mutborrow':
+        return []
+    st = b.blocks[w.bb]['s'][w.idx]
+    aliases = {st[1][0]} if not st[1][1] else set()
+    changed = True
+    while changed:
+        changed = False
+        for i, j, s in b.stmts():
+            if s[0] != '=' or s[1][1]:
+                continue
+            rv = s[2]
+            src = None
+            if rv[0] == 'use' and rv[1][0] in ('c', 'm') and not rv[1][1][1]:
+                src = rv[1][1][0]
+            elif rv[0] == 'ref' and rv[1] and rv[2][1] == ['*']:
+                src = rv[2][0]
+            if src in aliases and s[1][0] not in aliases:
+                aliases.add(s[1][0])
+                changed = True
+    out = []
+    live = b.live_blocks()
+    for i, j, s in b.stmts():
+        if i in live and s[0] == '=' and s[1][0] in aliases and s[1][1] and s[1][1][0] == '*':
+            out.append(Write(b, i, j, 'viaborrow', s[1], s[2], s[3]))
+    return out
+
+
 class Construct:
     __slots__ = ('body', 'bb', 'idx', 'adt', 'variant', 'fields', 'ops', 'line')
 
@@ -580,7 +612,7 @@ def reach_under(facts, body, assume, start=0, avoid=()):
         br = brs.get(b)
         if br is not None:
             inner, neg = peel_not(br.desc)
-            if inner[0] == 'local' and inner[2] in assume:
+            if inner[0] in ('local', 'param') and inner[2] in assume:
                 val = assume[inner[2]]
                 if neg:
                     val = not val
